@@ -230,6 +230,9 @@ class SizedStr(str):
     def __len__(self):
         return self.n
 
+    def __bool__(self):
+        return bool(self.n != 0)    # a real bool (forks on n == 0) without forcing len() to a machine integer
+
     def __ch_deep_realize__(self, memo):
         return self
 
@@ -279,3 +282,123 @@ def terminal_output(n: int, kind: int) -> bool:
     eng.notify(ev, "id1")
     got = outcome(log)
     return got == (("SUCCEEDED", None) if n <= L_DATA else ("FAILED", "States.DataLimitExceeded"))
+
+
+# --------------------------------------------------------------------- additions after the seeded-change round
+@condition(timeout={"quick": 60, "thorough": 120}, functions=["StateEngine.notify (history limit guard on a retry re-entry, where no StateEntered event is logged)"])
+def history_limit_on_retry(n: int) -> bool:
+    """
+    requires: 1 <= n <= 25004
+    ensures: _
+    """
+    t = {"Type": "Task", "Resource": "arn:aws:rpcmessage:local::function:f", "Next": "N", "Retry": [{"ErrorEquals": ["E"], "MaxAttempts": 99999}]}
+    asl = {"StartAt": "T", "States": {"T": t, "N": {"Type": "Succeed"}}}
+    eng, log = stubs.make_engine(asl)
+    se.json = SizedJson(2)
+    ev = stubs.running_event("T", {"x": 1}, eng=eng, extra_state={"RetryCount": 1, "RetryTimeout": 0})
+    eng.execution_history[stubs.EX_ARN] = SizedList(n)
+    eng.notify(ev, "id1")
+    calls = [l for l in log if l[0] == "execute_task"]
+    if n > L_HIST:
+        return outcome(log) == ("FAILED", "States.ExecutionHistoryLimitExceeded") and not calls
+    return len(calls) == 1 and outcome(log)[0] == "other"
+
+
+import vh_c10 as api
+ASL_OK = {"StartAt": "A", "States": {"A": {"Type": "Pass", "End": True}}}
+
+
+class _ApiJson:
+    """json/stdjson shim for the REST modules: the request body parses to the prepared members and
+    a SizedStr definition/input parses to a fixed valid document."""
+    def __init__(self, members):
+        self.members = members
+
+    def loads(self, s, *a, **k):
+        if isinstance(s, SizedStr):
+            return dict(ASL_OK)
+        if s == "<body>":
+            return self.members
+        return stubs.FastJson.loads(s, *a, **k)
+
+    def dumps(self, o, *a, **k):
+        return stubs.FastJson.dumps(o, *a, **k)
+
+
+class _Body:
+    def decode(self, enc="utf8"):
+        return "<body>"
+
+
+def _api_call(f, action, members):
+    fe = api.FE[f]
+    fe.reset(False)
+    shim = _ApiJson(members)
+    saved = (fe.mod.json, getattr(fe.mod, "stdjson", None))
+    fe.mod.json = shim
+    if saved[1] is not None:
+        fe.mod.stdjson = shim
+    try:
+        return fe, fe.call("AWSStepFunctions." + action, api.CT, _Body())
+    finally:
+        fe.mod.json = saved[0]
+        if saved[1] is not None:
+            fe.mod.stdjson = saved[1]
+
+
+@condition(timeout={"quick": 120, "thorough": 300}, functions=["rest_api_asyncio / rest_api: aws_api_CreateStateMachine, aws_api_UpdateStateMachine (definition size limit)"])
+def api_definition_size(f: int, n: int, update: bool) -> bool:
+    """
+    requires: 0 <= f < 2 and n >= 0
+    ensures: _
+    """
+    sm = api.sm_arn("m1")
+    if update:
+        fe = api.FE[f]
+        members = {"stateMachineArn": sm, "definition": SizedStr(n)}
+        # the machine must exist: create it through the store directly
+        def prep(fe):
+            fe.engine.asl_store[sm] = {"definition": dict(ASL_OK), "name": "m1", "roleArn": api.ROLE1, "stateMachineArn": sm,
+                                       "type": "STANDARD", "creationDate": 1.0, "updateDate": 1.0, "status": "ACTIVE"}
+        fe0 = api.FE[f]; fe0.reset(False); prep(fe0)
+        shim = _ApiJson(members)
+        saved = (fe0.mod.json, getattr(fe0.mod, "stdjson", None))
+        fe0.mod.json = shim
+        if saved[1] is not None: fe0.mod.stdjson = shim
+        try:
+            v, code = fe0.call("AWSStepFunctions.UpdateStateMachine", api.CT, _Body())
+        finally:
+            fe0.mod.json = saved[0]
+            if saved[1] is not None: fe0.mod.stdjson = saved[1]
+        if n == 0:
+            return code == 400          # neither roleArn nor a definition supplied
+        if n <= L_DEF:
+            return code == 200
+        return code == 400 and v.get("__type") == "InvalidDefinition"
+    fe, (v, code) = _api_call(f, "CreateStateMachine", {"name": "m1", "roleArn": api.ROLE1, "definition": SizedStr(n)})
+    if 1 <= n <= L_DEF:
+        return code == 200 and sm in fe.engine.asl_store
+    return code == 400 and v.get("__type") == "InvalidDefinition" and sm not in fe.engine.asl_store
+
+
+@condition(timeout={"quick": 120, "thorough": 300}, functions=["rest_api_asyncio / rest_api: aws_api_StartExecution (input size limit)"])
+def api_input_size(f: int, n: int) -> bool:
+    """
+    requires: 0 <= f < 2 and n >= 0
+    ensures: _
+    """
+    sm = api.sm_arn("m1")
+    fe = api.FE[f]; fe.reset(False)
+    fe.engine.asl_store[sm] = {"definition": dict(ASL_OK), "name": "m1", "roleArn": api.ROLE1, "stateMachineArn": sm,
+                               "type": "STANDARD", "creationDate": 1.0, "updateDate": 1.0, "status": "ACTIVE"}
+    shim = _ApiJson({"stateMachineArn": sm, "input": SizedStr(n)})
+    saved = fe.mod.json
+    fe.mod.json = shim
+    try:
+        v, code = fe.call("AWSStepFunctions.StartExecution", api.CT, _Body())
+    finally:
+        fe.mod.json = saved
+    pubs = [l for l in fe.disp.log if l[0] == "publish"]
+    if n <= L_DATA:
+        return code == 200 and len(pubs) == 1
+    return code == 400 and v.get("__type") == "InvalidExecutionInput" and not pubs
